@@ -464,7 +464,7 @@ PROPERTIES["C08"] = dict(
                 "report exactly one manifest region, inside the file, holding the chunk header and the store bytes, and the other regions tile the "
                 "rest of the file without overlap; two stores of the SAME length written into the same asset give files that are identical "
                 "outside that region (two symbolic executions of write_cai compared byte for byte)."),
-    level_note=("PNG only.  Assets of 8 + 42 (quick) / 52 (thorough) bytes = up to 3 / 4 chunks; stores up to 3 bytes.  The store-level placeholder/final "
+    level_note=("PNG only.  Assets of 8 + 42 (quick) / 52 (thorough) bytes = up to 3 / 4 chunks (the two-run same-size query: 42 bytes in both tiers; existing-manifest locations: 50 / 62 bytes); stores up to 3 bytes.  The store-level placeholder/final "
                 "write flow (store.rs) that relies on this is outside."),
     scope=_PNG_SCOPE, outside=_PNG_OUT + ["store.rs start_save_stream / finish_save_stream"], assumptions=_PNG_ASSUME, harnesses=[],
     smt=dict(module="props_c08", K=6, N=24, timeout_ms=1500000),
